@@ -114,6 +114,50 @@ def check_roundtrip_case(case, acc):
                 return
 
 
+def check_inplace_roundtrip(case, acc):
+    """files written and read back one after another under the SAME caller-owned configuration object, which is
+    edited in place between files (which elements carry PDS data, a processor, a type)"""
+    from cardutil import mciipm
+    cfg = copy.deepcopy(corpus.cfg_of('CUSTOM'))
+    acc.case(('rt_inplace', case['enc'], case['blocked'], repr(case['edits'])), nontrivial=True, outcome='rt_inplace')
+    msgs = [{'MTI': '1240', 'DE3': '123456', 'PDS0023': 'CT6', 'PDS0158': 'X' * 900, 'PDS0165': 'Y' * 400, 'DE49': '036'},
+            {'MTI': '1240', 'DE2': '5444330000001111', 'DE7': 7, 'PDS0001': 'a'},
+            {'MTI': '1644', 'DE71': 3}]
+    for i, edits in enumerate(case['edits']):
+        for e in edits:
+            isogen.apply_edit(cfg, e)
+        try:
+            f = io.BytesIO()
+            with mciipm.IpmWriter(f, encoding=case['enc'], blocked=case['blocked'], iso_config=cfg) as w:
+                for m in msgs:
+                    w.write(copy.deepcopy(m))
+            back = list(mciipm.IpmReader(io.BytesIO(f.getvalue()), encoding=case['enc'], blocked=case['blocked'],
+                                         iso_config=cfg))
+        except Exception as ex:
+            acc.viol('c06.roundtrip.inplace.exception', case, 'file %d: %r' % (i + 1, ex), 'messages read back')
+            return
+        if len(back) != len(msgs):
+            acc.viol('c06.roundtrip.inplace.count', case, '%d records' % len(back), '%d' % len(msgs))
+            return
+        for m, b in zip(msgs, back):
+            exp = expected_after(cfg, m)
+            for k, v in exp.items():
+                if b.get(k, '<absent>') != v:
+                    acc.viol('c06.roundtrip.inplace.value', case, 'file %d %s=%r' % (i + 1, k, b.get(k, '<absent>')),
+                             '%s=%r' % (k, v), 'written and read under the same configuration object after in-place '
+                             'edits %s' % edits)
+                    return
+
+
+INPLACE_EDITS = [
+    [[], [['del', 48, 'field_processor'], ['set', 54, 'field_processor', 'PDS']],
+     [['set', 48, 'field_processor', 'PDS'], ['del', 54, 'field_processor']], []],
+    [[['del', 48, 'field_processor'], ['del', 62, 'field_processor'], ['set', 72, 'field_processor', 'PDS'],
+      ['set', 111, 'field_processor', 'PDS']], [['set', 48, 'field_processor', 'PDS']], []],
+    [[], [['del', 2, 'field_processor']], [['set', 2, 'field_processor', 'PAN']], []],
+]
+
+
 # ---- isolation, operation level -----------------------------------------------------------------------------
 
 def good_file(enc, blocked, n=3, salt=0):
@@ -332,6 +376,8 @@ def replay_into(case, acc):
     k = case.get('kind')
     if k == 'merge':
         check_merge_case(case, acc)
+    elif k == 'rt_inplace':
+        check_inplace_roundtrip(case, acc)
     elif k == 'sched':
         mk = lambda: pair_bodies(case['pair'])   # noqa
         obs, pts = sched.run_schedule(mk, [core.REPO + '/cardutil'], observe, case['sched'])
@@ -360,6 +406,9 @@ def tasks(tier, seed):
                                'custom': custom})
     for ch in core.spread(rt, 64):
         ts.append({'t': 'cases', 'cases': ch})
+    ts.append({'t': 'cases', 'cases': [{'kind': 'rt_inplace', 'enc': enc, 'blocked': blocked, 'edits': edits}
+                                       for edits in INPLACE_EDITS for enc in ('latin_1', 'cp500')
+                                       for blocked in (False, True)]})
     # operation-level merges: complete for 2 ops per instance, switch-bounded for 3
     merges = []
     for kinds in (['W1', 'W2', 'R1', 'R2'], ['W3', 'W1', 'R3', 'R2']):
@@ -426,7 +475,8 @@ def describe(tier, seed):
                 'multi-carrier PDS, binary ICC with all 256 byte values, DE43, 5.9 kB near-maximum record, PAN-masked '
                 'custom configuration)%s plus cyclic files of 40 and 300 records, x {latin_1, cp500, cp037, ascii} x '
                 '{VBS, 1014} x {packaged, custom}; each message read back must carry every written key with an equal '
-                'value and only documented extras. Isolation (a): all 2520 merges of 2 operations each of 2 writers '
+                'value and only documented extras; files written and read one after another under ONE custom '
+                'configuration object edited in place between files. Isolation (a): all 2520 merges of 2 operations each of 2 writers '
                 '+ 2 readers (one reader meets a bad record), all merges with <= %d switches of 3 operations each, for '
                 'two instance sets plus same-kind sets; (b) real threads under a baton scheduler, scheduling points = '
                 'line events in cardutil/*.py: pairs next||next, write||write, write||next, dumps||loads, every '
